@@ -169,8 +169,8 @@ def toObsLoop (u16 : Bool) (r : Res (Bytes × Nat × Nat)) : Obs PSOut :=
   | .diverge => .diverge
 
 theorem digestLoop_hashed (first : Bytes) (u16 : Bool) (k flen : Nat) (its : List Item) (saved h : Bytes) (ts pos : Nat) :
-    digestLoop true first u16 k flen its saved h ts pos =
-      match digestLoop true first u16 k flen its saved [] ts pos with
+    digestLoop true true first u16 k flen its saved h ts pos =
+      match digestLoop true true first u16 k flen its saved [] ts pos with
       | .ok (h', ts', ss) => .ok (h ++ h', ts', ss)
       | .err e => .err e
       | .panic p => .panic p
@@ -186,10 +186,12 @@ theorem digestLoop_hashed (first : Bytes) (u16 : Bool) (k flen : Nat) (its : Lis
       · simp only [hl, ↓reduceIte]
         split
         · rfl
-        · simp
+        · split
+          · rfl
+          · simp
       · simp only [hl, ↓reduceIte]
         rw [ih l (h ++ conv u16 saved), ih l ([] ++ conv u16 saved)]
-        cases digestLoop true first u16 k flen rest l [] (ts + saved.length) (pos + phys) with
+        cases digestLoop true true first u16 k flen rest l [] (ts + saved.length) (pos + phys) with
         | ok v => obtain ⟨a, b, c⟩ := v; simp
         | err e => rfl
         | panic p => rfl
@@ -198,7 +200,7 @@ theorem digestLoop_hashed (first : Bytes) (u16 : Bool) (k flen : Nat) (its : Lis
 theorem obs_psLoop (u16 : Bool) (first : Bytes) (lfuel flen sz : Nat) (fuel : Nat) (d saved : Bytes) (ts pos : Nat)
     (hf : d.length < fuel) (hlf : d.length < 2 * lfuel) (hpos : pos + d.length = flen) :
     obs (runFlat (psLoop u16 first lfuel fuel saved ts) (bst d sz)) =
-      toObsLoop u16 (digestLoop true first u16 (if u16 then 4 else 2) flen (items u16 d) saved [] ts pos) := by
+      toObsLoop u16 (digestLoop true true first u16 (if u16 then 4 else 2) flen (items u16 d) saved [] ts pos) := by
   induction fuel generalizing d saved ts pos with
   | zero => omega
   | succ fuel ih =>
@@ -218,9 +220,12 @@ theorem obs_psLoop (u16 : Bool) (first : Bytes) (lfuel flen sz : Nat) (fuel : Na
       · simp only [hl, ↓reduceIte, psMarker]
         by_cases hs : saved.length < (if u16 = true then 4 else 2)
         · simp only [hs, ↓reduceIte]; rfl
-        · simp only [hs, ↓reduceIte, runFlat, bst]
-          have : flen - (pos + first.length) = 0 := by subst hl; simp at hlen; omega
-          simp [this, obs, toObsLoop, sinkBytes, hashSink, patchedSink]
+        · by_cases hc : saved.drop (saved.length - (if u16 = true then 4 else 2)) ≠
+              first.drop (first.length - (if u16 = true then 4 else 2))
+          · simp only [hs, hc, ↓reduceIte, and_self, ne_eq, not_false_eq_true]; rfl
+          · simp only [hs, hc, ↓reduceIte, runFlat, bst, and_false]
+            have : flen - (pos + first.length) = 0 := by subst hl; simp at hlen; omega
+            simp [this, obs, toObsLoop, sinkBytes, hashSink, patchedSink]
       · simp only [hl, ↓reduceIte]
         rw [obs_emit, obs_emit, obs_ret]
         simp [toObsLoop, pre, hashSink, patchedSink, Nat.add_assoc]
@@ -231,14 +236,17 @@ theorem obs_psLoop (u16 : Bool) (first : Bytes) (lfuel flen sz : Nat) (fuel : Na
       · simp only [hl, ↓reduceIte, psMarker]
         by_cases hs : saved.length < (if u16 = true then 4 else 2)
         · simp only [hs, ↓reduceIte]; rfl
-        · simp only [hs, ↓reduceIte, runFlat, bst]
-          have : flen - (pos + first.length) = rest.length := by subst hl; omega
-          simp [this, obs, toObsLoop, sinkBytes, hashSink, patchedSink]
+        · by_cases hc : saved.drop (saved.length - (if u16 = true then 4 else 2)) ≠
+              first.drop (first.length - (if u16 = true then 4 else 2))
+          · simp only [hs, hc, ↓reduceIte, and_self, ne_eq, not_false_eq_true]; rfl
+          · simp only [hs, hc, ↓reduceIte, runFlat, bst, and_false]
+            have : flen - (pos + first.length) = rest.length := by subst hl; omega
+            simp [this, obs, toObsLoop, sinkBytes, hashSink, patchedSink]
       · simp only [hl, ↓reduceIte]
         have hne : ¬ ((none : Option BErr) = some (.term .eof)) := by simp
         rw [obs_emit, if_neg hne, ih rest line (ts + saved.length) (pos + line.length) (by omega) (by omega) (by omega)]
         rw [digestLoop_hashed first u16 _ flen (items u16 rest) line ([] ++ conv u16 saved)]
-        cases digestLoop true first u16 (if u16 = true then 4 else 2) flen (items u16 rest) line [] (ts + saved.length)
+        cases digestLoop true true first u16 (if u16 = true then 4 else 2) flen (items u16 rest) line [] (ts + saved.length)
             (pos + line.length) with
         | ok v => obtain ⟨a, b, c⟩ := v; simp [toObsLoop, pre, hashSink, patchedSink]
         | err e => rfl
@@ -310,7 +318,7 @@ theorem ps_flat (f : Bytes) (style fuel : Nat) (hf : f.length + 1 < fuel) :
     simp only [bst] at this
     rw [this]
     simp only [items]
-    cases digestLoop true (firstLine st en (isUtf16 f)) (isUtf16 f) (if isUtf16 f = true then 4 else 2) f.length
+    cases digestLoop true true (firstLine st en (isUtf16 f)) (isUtf16 f) (if isUtf16 f = true then 4 else 2) f.length
         (if isUtf16 f = true then lines16 [] f else lines8 [] f) [] [] 0 0 with
     | ok v => obtain ⟨a, b, c⟩ := v; rfl
     | err e => rfl
